@@ -8,6 +8,7 @@ NEXT Next
 CONSTANTS
   AllowDupStart = TRUE
   AllowSilentInit = FALSE
+  AllowRestartRace = TRUE
   AllowDoubleError = TRUE
   SInsts = {}
   SIds = {}
